@@ -5,7 +5,7 @@ import inspect
 from . import smt
 from .terms import (And, Or, Not, Implies, Ite, Eq, asV, asB, asI, asS, mkB, mkI, mkS, TRUE, FALSE,
                     const_term, seq_of_terms, KIND_OF_PY)
-from .values import (Val, PyC, PyList, SymObj, Closure, BM, Exc, OutOfSubset, fresh_name, ClassTable)
+from .values import (Val, PyC, PyList, SymObj, SDict, Closure, BM, Exc, OutOfSubset, fresh_name, ClassTable)
 
 
 def split_and(t):
@@ -210,9 +210,33 @@ class CoreMixin:
             return Val(f"({ctor} {seq_of_terms(ts)})", kind=v.kind, fresh=TRUE if v.fresh else FALSE)
         if isinstance(v, SymObj):
             return self.escape(v)
+        if isinstance(v, SDict):
+            return self.lift_sdict(v)
         if isinstance(v, Exc):
             return self.lift(v.val) if v.val is not None else Val("v_none")
         raise OutOfSubset(f"cannot lift {type(v).__name__} into an SMT value")
+
+    def lift_sdict(self, d):
+        """A dict with statically known keys becomes a fresh dict constant defined by per-key facts."""
+        if d.term is None:
+            if all(cnd == TRUE for cnd, _ in d.entries.values()):
+                items = [f"(v_pair {smt.sstr(k)} {asV(self.lift(val))})" for k, (cnd, val) in d.entries.items()]
+                d.term = f"(v_dict {seq_of_terms(items)})"
+                return Val(d.term, kind="dict", fresh=TRUE)
+            r = self.declare(fresh_name("sdict"))
+            d.term = r
+            facts = [f"(dict_wf {r})"]
+            count = []
+            for k, (cnd, val) in d.entries.items():
+                facts.append(Eq(f"(dhas {r} {smt.sstr(k)})", cnd))
+                facts.append(Implies(cnd, Eq(f"(dval {r} {smt.sstr(k)})", asV(self.lift(val)))))
+                count.append(Ite(cnd, "1", "0"))
+            q = fresh_name("sk")
+            others = And(*[Not(Eq(q, smt.sstr(k))) for k in d.entries])
+            facts.append(f"(forall (({q} String)) (! (=> {others} (not (dhas {r} {q}))) :pattern ((dhas {r} {q}))))")
+            facts.append(Eq(f"(seq.len (ditems {r}))", "(+ 0 " + " ".join(count) + ")" if count else "0"))
+            self.escape_facts.extend(facts)
+        return Val(d.term, kind="dict", fresh=TRUE)
 
     def named_object(self, o):
         """A pre-existing live object used as a constant (e.g. UNBOUND_PROPERTY, a function)."""
